@@ -15,37 +15,48 @@ EXTENDS Integers, FiniteSets
 
 CONSTANTS Mrp,       \* instances
           Atomic,    \* BOOLEAN
-          InspectorCleansUp   \* BOOLEAN
+          InspectorCleansUp,  \* BOOLEAN
+          InspectorLoadsLock  \* BOOLEAN: an accepted inspector reads the metadata directory, the lock
+                              \* file among the rest, into its own cache (a seeded change did that);
+                              \* whether an instance may write is answered from that cache
 
 VARIABLES file,      \* the _lock file exists
-          pc         \* instance -> "idle" | "checked" | "holding" | "refused"
+          pc,        \* instance -> "idle" | "checked" | "holding" | "refused" | "inspecting"
+          sees       \* instance -> its cached belief that the lock file is there (= "I am the writer":
+                     \* Pipestance.readOnly() is !metadata.exists(Lock))
 
-Init == file = FALSE /\ pc = [m \in Mrp |-> "idle"]
+Init == file = FALSE /\ pc = [m \in Mrp |-> "idle"] /\ sees = [m \in Mrp |-> FALSE]
 
 (* metadata.loadCache(); metadata.exists(Lock) *)
 Check(m) == /\ pc[m] = "idle"
             /\ pc' = [pc EXCEPT ![m] = IF file THEN "refused" ELSE "checked"]
-            /\ UNCHANGED file
+            /\ UNCHANGED <<file, sees>>
 (* creating the file *)
 Create(m) == /\ pc[m] = "checked"
              /\ IF Atomic /\ file
-                THEN pc' = [pc EXCEPT ![m] = "refused"] /\ UNCHANGED file
-                ELSE pc' = [pc EXCEPT ![m] = "holding"] /\ file' = TRUE
+                THEN pc' = [pc EXCEPT ![m] = "refused"] /\ UNCHANGED <<file, sees>>
+                ELSE pc' = [pc EXCEPT ![m] = "holding"] /\ file' = TRUE /\ sees' = [sees EXCEPT ![m] = TRUE]
 (* the instance exits (or is told to by a handled signal) and unlocks *)
 Exit(m) == /\ pc[m] = "holding"
-           /\ pc' = [pc EXCEPT ![m] = "idle"] /\ file' = FALSE
+           /\ pc' = [pc EXCEPT ![m] = "idle"] /\ file' = FALSE /\ sees' = [sees EXCEPT ![m] = FALSE]
 Retry(m) == /\ pc[m] = "refused"
-            /\ pc' = [pc EXCEPT ![m] = "idle"] /\ UNCHANGED file
+            /\ pc' = [pc EXCEPT ![m] = "idle"] /\ UNCHANGED <<file, sees>>
 
 (* a read-only attach by an instance that holds nothing; refused or not, it leaves *)
 Inspect(m, refused) ==
     /\ pc[m] = "idle"
     /\ file' = IF refused /\ InspectorCleansUp THEN FALSE ELSE file
-    /\ UNCHANGED pc
+    /\ IF refused THEN UNCHANGED <<pc, sees>>
+       ELSE /\ pc' = [pc EXCEPT ![m] = "inspecting"]      \* an accepted inspector stays and runs its loop
+            /\ sees' = [sees EXCEPT ![m] = InspectorLoadsLock /\ file]
+Leave(m) == /\ pc[m] = "inspecting"
+            /\ pc' = [pc EXCEPT ![m] = "idle"] /\ sees' = [sees EXCEPT ![m] = FALSE] /\ UNCHANGED file
 
-Next == \E m \in Mrp : Check(m) \/ Create(m) \/ Exit(m) \/ Retry(m) \/ \E r \in BOOLEAN : Inspect(m, r)
-Spec == Init /\ [][Next]_<<file, pc>>
+Next == \E m \in Mrp : Check(m) \/ Create(m) \/ Exit(m) \/ Retry(m) \/ Leave(m) \/ \E r \in BOOLEAN : Inspect(m, r)
+Spec == Init /\ [][Next]_<<file, pc, sees>>
 
-OneWriter == Cardinality({m \in Mrp : pc[m] = "holding"}) <= 1
+(* at most one instance holds the lock, and at most one believes it may write *)
+OneWriter == /\ Cardinality({m \in Mrp : pc[m] = "holding"}) <= 1
+             /\ Cardinality({m \in Mrp : sees[m]}) <= 1
 HolderHasFile == (\E m \in Mrp : pc[m] = "holding") => file
 =============================================================================
